@@ -28,6 +28,10 @@ def probe_f19(run, har):
             run.report_failure(None, "a chain of %d steps fails: rc %d" % (n, p.returncode), where)
     finally:
         shutil.rmtree(d, ignore_errors=True)
+    # the run loop waits on the worker threads' channel: a worker that dies without reporting leaves it waiting forever
+    import taskleg
+    taskleg.showincludes_bytes_leg(run, n2)
+    run.coverage["black_box_worker_thread_leg"] = "deps=msvc command reporting non-UTF-8 header names: the loop must get its result back (no hang)"
 
 
 def main(tier, seed, replay=None):
